@@ -1,6 +1,6 @@
 """C13 — clones are faithful and fully independent of their originals.
 
-Decided by: Coq theorems (coq/theories/C13/Property.v, 19 theorems, all "Closed under the global context") about
+Decided by: Coq theorems (coq/theories/C13/Property.v, 21 theorems, all "Closed under the global context") about
 the executable heap model in C13/Model.v (Cloner.clone_graph / clone_node / clone_attr / _clone_or_get_value /
 clone_meta / _remap_device_configurations, Graph.clone, GraphView.clone, Function.clone, Model.clone,
 functionalize), tied to /repo on every run by a correspondence check: models are built through the public API,
@@ -78,7 +78,8 @@ opset_imports not copied (C,O); M4 initializers cloned after nodes (C,O); M5 dev
 remapped (C,O); M6 invalid meta keys dropped (C,O after adding is_valid probes to py_canon); M7 Model.clone
 shares metadata_props (C,O); M8 functionalize without clone (O only - the 2-line wrapper is tied by the oracle);
 M9 GRAPHS attributes shared (C,O); M10 node metadata_props dict shared (C,O); M12 deep_copy ignored for output
-meta (C,O); M13 Graph.clone ignores allow_outer_scope_values=False (C,O).  Applying the proposed fix makes the
+meta (C,O); M13 Graph.clone ignores allow_outer_scope_values=False (C,O); M14 specs about node inputs not
+remapped (C,O).  Applying the proposed fix makes the
 correspondence break and the known finding stale, as it must.
 """
 
@@ -464,6 +465,14 @@ class Gen:
                         n.set_pipeline_stage(cfg, 0)
                 else:
                     n.set_pipeline_stage(cfg, rng.randrange(3))
+            elif self.cfgs and rng.random() < 0.12:
+                # a raw configuration whose spec is about a value that need not be an input/output of the node
+                # (outside C19's invariant: exercises the "kept as-is" path of _remap_device_configurations)
+                pool2 = avail + outer
+                spec_v = rng.choice(pool2) if pool2 and rng.random() < 0.8 else None
+                n.device_configurations = (ir.NodeDeviceConfiguration(
+                    configuration=rng.choice(self.cfgs),
+                    sharding_specs=(ir.ShardingSpec(value=spec_v, device=(0,)),), pipeline_stage=None),)
             nodes.append(n)
             avail += list(n.outputs)
         outs_pool = [o for n in nodes for o in n.outputs] + ins
@@ -952,7 +961,10 @@ def run_case(spec: dict, nops: int):
     root = R.id(sc["target"])
     sorted_py = is_sorted(ir, cloned_graph_of(sc))
     info = {"spec": spec, "cells_before": len(h0), "sorted": sorted_py}
-    pproj = proto_proj(R, ir, sc["target"])
+    try:
+        pproj = proto_proj(R, ir, sc["target"])
+    except Exception:  # noqa: BLE001   (not serializable: the proto tie is skipped for this case, [0] = no proto)
+        pproj = None
     pclone = []
     try:
         clone = sc["clone"]()
@@ -966,7 +978,11 @@ def run_case(spec: dict, nops: int):
         after, final, cres = {}, {}, f"(Raise {res[1]})"
     else:
         roots = sc["univ"] + [clone]
-        pclone = proto_proj(R, ir, clone)
+        if pproj is not None:
+            try:
+                pclone = proto_proj(R, ir, clone)
+            except Exception:  # noqa: BLE001
+                pclone = [999998]      # the clone of a serializable original must be serializable
         after = D.dump(roots)
         cres = f"(Ok {P(R.id(clone))})"
         info["cells_after"] = len(after)
@@ -993,7 +1009,9 @@ def run_case(spec: dict, nops: int):
     term = ("(Case\n   " + cells_term(h0) + f"\n   {P(n0)} {cnat(sc['kind'])} {P(root)} "
             + clist(P(R.id(u)) for u in sc["univ"]) + f" {cbool(sc['allow'])} {cbool(sc['deep'])} {cres}\n   "
             + cells_term(after) + f"\n   {cbool(sorted_py)}\n   " + clist(ops_terms) + "\n   " + cells_term(final)
-            + "\n   " + clist(cN(x) for x in pproj) + "\n   " + clist(cN(x) for x in pclone) + ")")
+            + "\n   " + clist(cN(x) for x in (pproj if pproj is not None else [0])) + "\n   "
+            + clist(cN(x) for x in (pclone if pproj is not None else [0])) + ")")
+    info["serializable"] = pproj is not None
     return term, info
 
 
@@ -1086,7 +1104,23 @@ def scenario_of(spec: dict):
 
 # --------------------------------------------------------------------------- the property oracle (public API only)
 
-def serialize(ir, root, normalize_view: bool = False) -> bytes:
+def serialize(ir, root, normalize_view: bool = False):
+    """Deterministic proto bytes, or None when the object cannot be serialized (e.g. a sharding spec about a
+    value that is not an input/output of its node): proto comparisons are then skipped for that scenario.
+
+    Serializing has a side effect: serde sets the name of every initializer tensor to the name of its value.  A
+    tensor object that is shared (several initializers, an attribute) is therefore printed with the name given by
+    whatever was serialized last, so one serialization of an object is not yet a function of that object; the
+    second one is (the first pass leaves the names in the state this object determines).  All comparisons use the
+    second pass."""
+    try:
+        _serialize(ir, root, normalize_view)
+        return _serialize(ir, root, normalize_view)
+    except Exception:  # noqa: BLE001
+        return None
+
+
+def _serialize(ir, root, normalize_view: bool = False) -> bytes:
     from onnx_ir import serde
     if isinstance(root, ir.Model):
         return serde.serialize_model(root).SerializeToString(deterministic=True)
@@ -1377,19 +1411,12 @@ def oracle(spec: dict, rename: bool = True) -> list[dict]:
     # serialization synchronizes the names of initializer tensors with their values (serde: "make sure the
     # tensor's name is the same as the value's name"), so the first serialization may itself rename a tensor that
     # is also used as an attribute; baselines are taken after one warm-up serialization
-    try:
-        serialize(ir, sc["model"])
-        serialize(ir, root)
-    except Exception:  # noqa: BLE001
-        pass
+    serialize(ir, sc["model"])
+    serialize(ir, root)
     canon_root = py_canon(ir, root)
     before = snapshot(ir, sc["model"], skip_uses_of=outer)
     ser_before = serialize(ir, sc["model"])
-    ser_root = None
-    try:
-        ser_root = serialize(ir, root, normalize_view=(kind == 1))
-    except Exception:  # noqa: BLE001
-        ser_root = None
+    ser_root = serialize(ir, root, normalize_view=(kind == 1))
     try:
         clone = sc["clone"]()
     except Exception as e:  # noqa: BLE001
@@ -1402,11 +1429,11 @@ def oracle(spec: dict, rename: bool = True) -> list[dict]:
         bad("outer-accepted", f"graph references outer-scope value {outer[0].name!r} but the clone was not rejected")
     # 1. serializes like the original
     if ser_root is not None:
-        try:
-            if serialize(ir, clone, normalize_view=(kind == 1)) != ser_root:
-                bad("serialization", "serialized clone differs from the serialized original")
-        except Exception as e:  # noqa: BLE001
-            bad("serialization", f"the clone cannot be serialized: {type(e).__name__}")
+        sc_ = serialize(ir, clone, normalize_view=(kind == 1))
+        if sc_ is None:
+            bad("serialization", "the clone cannot be serialized although the original can")
+        elif sc_ != ser_root:
+            bad("serialization", "serialized clone differs from the serialized original")
     if py_canon(ir, clone) != canon_root:
         bad("structure", "canonical structure of the clone differs from the original's: "
             + first_diff(canon_root, py_canon(ir, clone)))
@@ -1437,8 +1464,18 @@ def oracle(spec: dict, rename: bool = True) -> list[dict]:
         cowned |= {id(v) for v in n.outputs}
     refs = [(v, f"input of node {n.name}") for n in cnodes for v in n.inputs if v is not None]
     refs += [(v, f"output of graph {g.name}") for g in cgraphs for v in g.outputs]
-    refs += [(s.value, f"sharding spec of node {n.name}") for n in cnodes for c in n.device_configurations
-             for s in c.sharding_specs if s.value is not None]
+    # sharding specs: only for nodes whose original satisfies the documented contract (C19: a spec is about one
+    # of the node's own inputs or outputs); the cloner keeps any other spec value as it is, flag or no flag
+    onodes = {n.name: n for n in collect(ir, sc["model"])[1] + (collect(ir, root)[1] if kind == 1 else [])}
+
+    def dev_ok(n):
+        o = onodes.get(n.name)
+        if o is None:
+            return True
+        own = {id(v) for v in list(o.inputs) + list(o.outputs) if v is not None}
+        return all(sp.value is None or id(sp.value) in own for c in o.device_configurations for sp in c.sharding_specs)
+    refs += [(s.value, f"sharding spec of node {n.name}") for n in cnodes if dev_ok(n)
+             for c in n.device_configurations for s in c.sharding_specs if s.value is not None]
     for v, what in refs:
         if id(v) in cowned:
             continue
@@ -1502,10 +1539,7 @@ def oracle_sym(spec: dict, rename: bool = True) -> list[dict]:
     outer = [v for k, v in ev if k == "use" and id(v) not in owned]
     if outer or not is_sorted(ir, cg):
         return fails       # captured values are shared by design; the unsorted case is reported by oracle()
-    try:
-        serialize(ir, sc["model"])
-        serialize(ir, clone)
-    except Exception:  # noqa: BLE001
+    if serialize(ir, sc["model"]) is None or serialize(ir, clone) is None:
         return fails
     base = snapshot(ir, clone)
     ser0 = serialize(ir, clone)
@@ -1721,6 +1755,10 @@ def run(ck) -> None:
                            "(Graph/GraphView/Function/Model.clone, allow_outer_scope_values, deep_copy) x a random edit history "
                            "on either copy; non-trivial = the clone succeeded, allocated >= 10 cells and >= 1 edit was applied")
     ck.prove()
+    # Iso.v (case-file support, definitions only) is not in the closure of Property.v: build it explicitly
+    rc, out = common.make([os.path.join("theories", PROP, "Iso.vo")], timeout=600)
+    if rc != 0:
+        ck.broken("build:C13/Iso.v", out[-2000:])
     seen: set = set()
     # ---- corpus + generated cases: correspondence model <-> implementation
     n = 144 if not ck.thorough else 6000
@@ -1739,6 +1777,7 @@ def run(ck) -> None:
                 if "builtin" not in sp else "builtin")
         ck.hist("flags", f"allow={bool(sp.get('allow'))},deep={bool(sp.get('deep'))}")
         ck.hist("sorted", str(info["sorted"]))
+        ck.hist("serializable", str(info.get("serializable")))
         for o in info["ops"]:
             ck.hist("ops", o["op"])
             ck.hist("op_results", o["result"])
